@@ -10,7 +10,17 @@ Three ties between earthkit.workflows.backends and the Coq development:
         batch  : for every function that carries the marker AT RUN TIME, random partitions of 2..6 arguments:
                  f(g(b1),...,g(bk)) == f(all), g = f on batches of >= 2, identity on singletons (as reduce() batches).
   (R) correspondence: the same calls + observed results are written as Gallina literals and the model
-      (Backends/Ops.v `apply`) is evaluated on them inside Coq (vm_compute) by Backends/OpsCheck.v `check_case`."""
+      (Backends/Ops.v `apply`) is evaluated on them inside Coq (vm_compute) by Backends/OpsCheck.v `check_case`.
+      Typed: every argument carries its element type, the model converts the arguments to NumPy's common type
+      (Backends/Dtype.v `promote_list`, `cast`) before the exact operation and predicts the element type of the
+      result (Backends/DtypeCheck.v `check_case_d`).
+
+Inputs (what a case varies): operation and form, back-end, number of arguments, shapes (equal, or broadcastable
+for stack and the binary operations), the element type OF EACH ARGUMENT (equal or mixed, narrower or wider first),
+value range (small numbers for arithmetic; the full range of each type, halves and large magnitudes for the
+operations that only move or compare values), memory layout of the arguments (C, Fortran, strided view, read-only),
+one object passed in two positions, the same call repeated on the same objects, axis / index in every legal form
+(int, NumPy integer scalar, list, integer arrays of several types)."""
 import importlib.util
 import math
 import warnings
@@ -29,25 +39,37 @@ TRUSTED = [
 ]
 ASSUMPTIONS = [
     "values are exact rationals: floating-point rounding, NaN/inf, integer wrap-around and bool arithmetic are outside the model (compared with NumPy directly by the oracle, not with Coq)",
+    "element types: bool, int8..int64, uint8..uint64, float32, float64 are modelled (common type, result type, conversion); float16 is compared with NumPy by the oracle only; conversions that round (64-bit integers to float64) are outside the model",
+    "the result's element type is part of 'the value NumPy gives' (an int8 result where NumPy gives int32 wraps in the next operation): the oracle compares it",
+    "stack is documented to broadcast its arguments (np.stack is not): for broadcastable shapes the reference is np.stack(np.broadcast_arrays(...)); a back-end that refuses them, as np.stack does, is not failed",
     "tensors in the theorems are valid (body conforms to shape) -- the invariant of a NumPy array; the checker verifies it for every emitted case",
     "'every partition into batches' is read as reduce()/_batch_transform batches: a batch of one argument is passed through unchanged (a single argument means 'reduce inside the array' in this library); at least two batches",
     "equality of results treats any two failures as equal (res_eqv): the error type of a shape mismatch may differ between batched and unbatched evaluation",
-    "general NumPy broadcasting is not modelled (binary operations: equal shapes or one 0-d/scalar operand; stack/reductions: equal shapes)",
+    "general NumPy broadcasting is not modelled (binary operations: equal shapes or one 0-d/scalar operand; stack/reductions: equal shapes); broadcast cases are compared with NumPy by the oracle only",
     "xarray objects are modelled by their values; dimension names are mapped to axis numbers by the harness, result dims are checked by the oracle",
-    "take: indices are an int, a list of ints or an integer ndarray (the documented domain); tuples are not exercised (xarray reads a tuple as a Variable spec)",
+    "take: indices are an int, a NumPy integer scalar, a list of ints or an integer ndarray of any integer type (the documented domain); tuples are not exercised (xarray reads a tuple as a Variable spec)",
 ]
 
 HEADER = """From Coq Require Import List NArith ZArith QArith Qcanon String.
-From EKW Require Import Backends.Tensor Backends.Ops Backends.OpsCheck.
+From EKW Require Import Backends.Tensor Backends.Ops Backends.OpsCheck Backends.Dtype Backends.DtypeCheck.
 Import ListNotations.
 Open Scope string_scope.
 """
 
 REDUCTIONS = ["sum", "prod", "min", "max", "mean", "std", "var"]
 BINARY = {"add": "add", "subtract": "subtract", "multiply": "multiply", "divide": "divide", "pow": "power"}
-MODEL_DTYPES = ["int8", "int16", "int32", "int64", "float32", "float64"]
-EXTRA_DTYPES = ["bool", "uint8", "uint16"]          # oracle only (wrap-around / bool arithmetic not modelled)
+INTS = ["int8", "int16", "int32", "int64"]
+UINTS = ["uint8", "uint16", "uint32", "uint64"]
+FLOATS = ["float32", "float64"]
+MODEL_DTYPES = INTS + FLOATS                        # arithmetic on these is modelled (small values: nothing wraps)
+EXTRA_DTYPES = ["bool"] + UINTS                     # arithmetic: oracle only (wrap-around / bool arithmetic not modelled)
+ALL_DTYPES = ["bool"] + INTS + UINTS + FLOATS       # moving / comparing values of these is modelled
+COQ_DTYPE = {"bool": "DBool", "int8": "DI8", "int16": "DI16", "int32": "DI32", "int64": "DI64", "uint8": "DU8",
+             "uint16": "DU16", "uint32": "DU32", "uint64": "DU64", "float32": "DF32", "float64": "DF64"}
 EXACT_OPS = {"sum", "prod", "min", "max", "add", "subtract", "multiply", "stack", "concat", "take"}
+STRUCTURAL = {"stack", "concat", "take", "min", "max"}      # never round, whatever the data
+LAYOUTS = ["c", "c", "c", "f", "strided", "reversed", "readonly"]
+IDX_DTYPES = ["int8", "int16", "int32", "int64", "uint8", "uint32"]
 DIMS = ["d0", "d1", "d2", "d3"]
 
 
@@ -69,8 +91,33 @@ def gen_shape(rng, allow_zero=False, min_rank=0, max_rank=3):
     return s
 
 
+def is_intlike(dt):
+    return dt.startswith(("int", "uint", "bool"))
+
+
+def wide_value(rng, dtype):
+    """a value from the whole range of the type: extremes, halves (truncation shows), large and tiny magnitudes"""
+    if dtype == "bool":
+        return rng.random() < 0.5
+    if is_intlike(dtype):
+        ii = np.iinfo(dtype)
+        lo, hi = int(ii.min), int(ii.max)
+        return rng.choice([lo, lo + 1, hi - 1, hi, rng.randint(lo, hi), rng.randint(lo, hi), rng.randint(lo, hi),
+                           max(lo, min(hi, rng.randint(-300, 300))), max(lo, -1), 0, 1])
+    p, elo, ehi = {"float16": (11, -12, 4), "float32": (24, -40, 80), "float64": (53, -80, 300)}[dtype]
+    r = rng.random()
+    if r < 0.3:
+        return rng.randint(-600, 600) / 2
+    if r < 0.5:
+        return float(rng.randint(-2 ** p + 1, 2 ** p - 1))
+    m = rng.randint(-(2 ** p - 1), 2 ** p - 1) if rng.random() < 0.5 else rng.randint(-9, 9)
+    return math.ldexp(m, rng.randint(elo, ehi))
+
+
 def gen_data(rng, n, dtype, op, style):
-    """flat python numbers, representable in dtype, small enough that nothing wraps in the model domain"""
+    """flat python numbers, representable in dtype; unless style == 'wide' small enough that nothing wraps in the model domain"""
+    if style == "wide":
+        return [wide_value(rng, dtype) for _ in range(n)]
     lo, hi = (-2, 2) if op in ("prod", "pow") else (-4, 5)
     if dtype == "bool":
         return [rng.random() < 0.5 for _ in range(n)]
@@ -80,7 +127,7 @@ def gen_data(rng, n, dtype, op, style):
         return [rng.randint(lo, hi) for _ in range(n)]
     if style == "int":
         return [float(rng.randint(lo, hi)) for _ in range(n)]
-    if style == "dyadic":
+    if style == "dyadic" or dtype == "float16":
         return [rng.randint(8 * lo, 8 * hi) / 8 for _ in range(n)]
     return [round(rng.uniform(lo, hi), 3) for _ in range(n)]      # not representable exactly: tolerance class
 
@@ -89,11 +136,28 @@ def norm_axis(ax, rank):
     return ax + rank if ax < 0 else ax
 
 
+def dtypes_of(c):
+    """element type of every argument (cases stored before the types could differ carry one `dtype`)"""
+    return list(c.get("dtypes") or [c["dtype"]] * len(c["shapes"]))
+
+
+def sub_shape(rng, full, ones):
+    """a shape that broadcasts to `full`: a suffix of it, some sizes replaced by 1 if `ones`"""
+    t = list(full[rng.randint(0, len(full)):])
+    if ones:
+        t = [1 if rng.random() < 0.3 else x for x in t]
+    return t
+
+
 def gen_case(rng, malformed=False):
     backend = rng.choice(["numpy", "numpy", "dataarray", "dataarray", "dataset"])
     form = rng.choice(["multi", "multi", "single", "single", "stack", "concat", "take", "bin", "bin"])
-    model = rng.random() < 0.85
-    dtype = rng.choice(MODEL_DTYPES if model else EXTRA_DTYPES)
+    mover = form in ("stack", "concat", "take")
+    if mover:
+        pool = ALL_DTYPES + ["float16"] if rng.random() < 0.6 else MODEL_DTYPES
+    else:
+        pool = MODEL_DTYPES if rng.random() < 0.85 else EXTRA_DTYPES
+    dtype = rng.choice(pool)
     style = rng.choice(["int", "int", "dyadic", "real"])
     c = {"backend": backend, "form": form, "dtype": dtype}
     zero = rng.random() < 0.06
@@ -111,10 +175,21 @@ def gen_case(rng, malformed=False):
             c["axis"] = rng.choice([None] + list(range(-len(s), len(s)))) if s else None
     elif form == "stack":
         c["op"] = "stack"
-        s = gen_shape(rng, allow_zero=zero, max_rank=2)
         k = rng.randint(1, 6)
-        c["shapes"] = [s] * k
-        c["axis"] = rng.randint(-len(s) - 1, len(s))
+        if not malformed and k >= 2 and rng.random() < 0.25:
+            # broadcastable arguments (documented); xarray broadcasts by dimension name: the first argument has them all
+            full = gen_shape(rng, min_rank=1, max_rank=3)
+            if backend == "numpy":
+                c["shapes"] = [sub_shape(rng, full, True) for _ in range(k)]
+            else:
+                c["shapes"] = [list(full)] + [sub_shape(rng, full, False) for _ in range(k - 1)]
+            c["broadcast"] = True
+            r = len(np.broadcast_shapes(*map(tuple, c["shapes"])))
+            c["axis"] = rng.randint(-r - 1, r)
+        else:
+            s = gen_shape(rng, allow_zero=zero, max_rank=2)
+            c["shapes"] = [s] * k
+            c["axis"] = rng.randint(-len(s) - 1, len(s))
     elif form == "concat":
         c["op"] = "concat"
         s = gen_shape(rng, allow_zero=zero, min_rank=1)
@@ -132,36 +207,69 @@ def gen_case(rng, malformed=False):
         s = gen_shape(rng, min_rank=1)
         ax = rng.randint(-len(s), len(s) - 1)
         n = s[norm_axis(ax, len(s))]
-        kind = rng.choice(["int", "list", "ndarray"])
-        if kind == "int":
-            idx = rng.randint(-n, n - 1)
+        kind = rng.choice(["int", "int", "npint", "list", "ndarray", "ndarray"])
+        idt = "int64" if malformed else rng.choice(IDX_DTYPES)
+        low = 0 if idt.startswith("uint") else -n
+        if kind in ("int", "npint"):
+            idx = rng.randint(low, n - 1)
         else:
-            idx = [rng.randint(-n, n - 1) for _ in range(rng.randint(1, 4))]
-        c.update(shapes=[s], axis=ax, idx=idx, idx_kind=kind, dim_by=rng.choice(["int", "name"]))
+            idx = [rng.randint(low, n - 1) for _ in range(rng.randint(1, 4))]
+        c.update(shapes=[s], axis=ax, idx=idx, idx_kind=kind, idx_dtype=idt, dim_by=rng.choice(["int", "name"]))
     else:
         op = rng.choice(list(BINARY))
         c["op"] = op
         s = gen_shape(rng, allow_zero=zero)
-        second = rng.choice(["array", "array", "scalar", "zerod"])
-        c["shapes"] = [s, s if second == "array" else []]
+        second = rng.choice(["array", "array", "array", "scalar", "zerod", "bcast"])
+        if second == "bcast" and (malformed or not s):
+            second = "array"
+        if second == "bcast":
+            c["shapes"] = [s, sub_shape(rng, s, backend == "numpy")]
+            c["broadcast"] = True
+        else:
+            c["shapes"] = [s, s if second == "array" else []]
         c["second"] = second
         c["axis"] = None
     op = c["op"]
+    k = len(c["shapes"])
+    # element types: one for all arguments, or one per argument (narrower first, wider first, unrelated)
+    dts = [dtype] * k
+    if k >= 2 and rng.random() < 0.5:
+        mix = pool if mover else (MODEL_DTYPES if rng.random() < 0.7 else ALL_DTYPES)
+        dts = [rng.choice(mix) for _ in range(k)]
+        c["dtype"] = dts[0]
+    c["dtypes"] = dts
+    # operations that only move or compare values take values from the whole range of each type
+    if op in STRUCTURAL and rng.random() < 0.5:
+        style = "wide"
+    c["style"] = style
     datas = []
     for i, s in enumerate(c["shapes"]):
         n = math.prod(s)
-        d = gen_data(rng, n, dtype, op, style)
+        dt = dts[i]
+        d = gen_data(rng, n, dt, op, style)
         if op == "divide" and i == 1:
-            d = [x if x else (True if dtype == "bool" else 1) for x in d]
+            d = [x if x else (True if dt == "bool" else 1) for x in d]
         if op == "pow" and i == 1:
-            if dtype.startswith(("int", "uint")):
+            if dt.startswith(("int", "uint")):
                 d = [abs(x) % 4 for x in d]
-            elif dtype != "bool":
+            elif dt != "bool":
                 d = [float(rng.randint(-2, 3)) for _ in d] if style != "real" or rng.random() < 0.5 else d
-        if op == "pow" and i == 0 and not dtype.startswith(("int", "uint", "bool")):
+        if op == "pow" and i == 0 and not is_intlike(dt):
             d = [x if x else 1.0 for x in d]      # 0 ** negative = inf: outside the model
         datas.append(d)
     c["datas"] = datas
+    # how the caller holds the arguments: memory layout, one object in two positions, the call repeated
+    if rng.random() < 0.35:
+        c["layouts"] = [rng.choice(LAYOUTS) for _ in range(k)]
+    if k >= 2 and form != "bin" and rng.random() < 0.15:
+        i = rng.randrange(k - 1)
+        j = rng.randrange(i + 1, k)
+        if c["shapes"][i] == c["shapes"][j]:
+            c["alias"] = [[i, j]]
+            c["datas"][j] = c["datas"][i]
+            c["dtypes"][j] = c["dtypes"][i]
+    if rng.random() < 0.3:
+        c["twice"] = True
     if malformed:
         make_malformed(rng, c)
     return c
@@ -171,6 +279,7 @@ def make_malformed(rng, c):
     """shape mismatches, out-of-range axis / index (numpy back-end only: xarray aligns/broadcasts instead)"""
     c["backend"] = "numpy"
     c["malformed"] = True
+    c.pop("alias", None)
     f = c["form"]
     if f in ("multi", "stack", "concat") and len(c["shapes"]) >= 2 and len(c["shapes"][0]) >= 1 and min(c["shapes"][0]) >= 2:
         j = rng.randrange(1, len(c["shapes"]))
@@ -188,7 +297,7 @@ def make_malformed(rng, c):
         s = c["shapes"][0]
         n = s[norm_axis(c["axis"], len(s))]
         bad = rng.choice([n, n + 1, -n - 1])
-        c["idx"] = bad if c["idx_kind"] == "int" else list(c["idx"]) + [bad]
+        c["idx"] = bad if c["idx_kind"] in ("int", "npint") else list(c["idx"]) + [bad]
     elif f == "single" and c["shapes"][0] and c["op"] in ("sum", "prod", "min", "max"):
         r = len(c["shapes"][0])
         c["axis"] = rng.choice([r, r + 1, -r - 1])
@@ -199,14 +308,75 @@ def make_malformed(rng, c):
         c["malformed"] = False
 
 
+def gen_sweep(rng, rounds):
+    """every ordered pair of element types meets in stack on plain arrays (full-range values), and in one more
+    operation on a random back-end: the common type and the result type are a table, walk all of it"""
+    out = []
+    for _ in range(rounds):
+        for a in ALL_DTYPES:
+            for b in ALL_DTYPES:
+                s = gen_shape(rng, max_rank=2)
+                c = {"backend": "numpy", "form": "stack", "op": "stack", "dtype": a, "dtypes": [a, b], "shapes": [s, s],
+                     "axis": rng.randint(-len(s) - 1, len(s)), "style": "wide"}
+                c["datas"] = [gen_data(rng, math.prod(s), d, "stack", "wide") for d in (a, b)]
+                out.append(c)
+                backend = rng.choice(["numpy", "dataarray", "dataset"])
+                form = rng.choice(["concat", "multi", "multi", "bin"])
+                c = {"backend": backend, "form": form, "dtype": a, "dtypes": [a, b]}
+                if form == "concat":
+                    s = gen_shape(rng, min_rank=1, max_rank=2)
+                    c.update(op="concat", shapes=[s, s], axis=rng.randint(-len(s), len(s) - 1), style="wide")
+                elif form == "multi":
+                    op = rng.choice(["min", "max", "sum", "prod", "mean", "var"])
+                    s = gen_shape(rng, max_rank=2)
+                    c.update(op=op, shapes=[s, s], axis=None, style="wide" if op in STRUCTURAL else "int")
+                else:
+                    op = rng.choice(["add", "subtract", "multiply", "divide", "pow"])
+                    s = gen_shape(rng, max_rank=2)
+                    second = rng.choice(["array", "zerod"])
+                    c.update(op=op, shapes=[s, s if second == "array" else []], second=second, axis=None, style="int")
+                ds = []
+                for i, (sh, dt) in enumerate(zip(c["shapes"], c["dtypes"])):
+                    d = gen_data(rng, math.prod(sh), dt, c["op"], c["style"])
+                    if c["op"] == "divide" and i == 1:
+                        d = [x if x else (True if dt == "bool" else 1) for x in d]
+                    if c["op"] == "pow" and i == 1:
+                        d = [abs(x) % 4 for x in d] if dt.startswith(("int", "uint")) else d if dt == "bool" else [float(abs(int(x)) % 3) for x in d]
+                    if c["op"] == "pow" and i == 0 and not is_intlike(dt):
+                        d = [x if x else 1.0 for x in d]
+                    ds.append(d)
+                c["datas"] = ds
+                out.append(c)
+    return out
+
+
 # ----------------------------------------------------------------------------- running
+def relayout(a, how):
+    """the same values held differently: Fortran order, a strided view into a larger buffer, a doubly reversed view, read-only"""
+    if how == "f" and a.ndim >= 2:
+        return np.asfortranarray(a)
+    if how == "strided" and a.ndim >= 1:
+        big = np.zeros(a.shape[:-1] + (2 * a.shape[-1] + 1,), dtype=a.dtype)
+        big[..., 1::2] = a
+        return big[..., 1::2]
+    if how == "reversed" and a.ndim >= 1:
+        return a[::-1].copy()[::-1]
+    if how == "readonly":
+        a = a.copy()
+        a.setflags(write=False)
+    return a
+
+
 def arrays_of(c, var=0):
     out = []
-    for s, d in zip(c["shapes"], c["datas"]):
-        a = np.array(d, dtype=c["dtype"]).reshape(s)
+    lay = c.get("layouts") or []
+    for i, (s, d, dt) in enumerate(zip(c["shapes"], c["datas"], dtypes_of(c))):
+        a = np.array(d, dtype=dt).reshape(s)
         if var == 1:
             a = (a[..., ::-1] if a.ndim else a).copy()       # second Dataset variable: same shape, other data
-        out.append(a)
+        out.append(relayout(a, lay[i] if i < len(lay) else "c"))
+    for i, j in c.get("alias") or []:
+        out[j] = out[i]
     return out
 
 
@@ -216,11 +386,16 @@ def wrap(c, arrs):
     b = c["backend"]
     if b == "numpy":
         return arrs
-    das = [xr.DataArray(a, dims=DIMS[: a.ndim]) for a in arrs]
+    n = max(len(s) for s in c["shapes"])
+    das = [xr.DataArray(a, dims=DIMS[n - a.ndim: n]) for a in arrs]       # a lower-rank argument has the trailing dimensions
     if b == "dataarray":
-        return das
-    arrs2 = arrays_of(c, var=1)
-    return [xr.Dataset({"u": d, "w": xr.DataArray(a2, dims=DIMS[: a2.ndim])}) for d, a2 in zip(das, arrs2)]
+        objs = das
+    else:
+        arrs2 = arrays_of(c, var=1)
+        objs = [xr.Dataset({"u": d, "w": xr.DataArray(a2, dims=DIMS[n - a2.ndim: n])}) for d, a2 in zip(das, arrs2)]
+    for i, j in c.get("alias") or []:
+        objs[j] = objs[i]
+    return objs
 
 
 def call_impl(c, objs):
@@ -242,7 +417,9 @@ def call_impl(c, objs):
     if f == "take":
         idx = c["idx"]
         if c["idx_kind"] == "ndarray":
-            idx = np.array(idx, dtype=np.int64)
+            idx = np.array(idx, dtype=c.get("idx_dtype", "int64"))
+        elif c["idx_kind"] == "npint":
+            idx = np.dtype(c.get("idx_dtype", "int64")).type(idx)
         dim = ax
         if xr_ and c.get("dim_by") == "name":
             dim = DIMS[norm_axis(ax, rank)]
@@ -262,7 +439,7 @@ def np_ref(c, arrs):
     if f == "single":
         return getattr(np, op)(arrs[0], axis=ax)
     if f == "stack":
-        return np.stack(arrs, axis=ax)
+        return np.stack(np.broadcast_arrays(*arrs) if c.get("broadcast") else arrs, axis=ax)
     if f == "concat":
         return np.concatenate(arrs, axis=ax)
     if f == "take":
@@ -282,18 +459,15 @@ def expected_dims(c):
     if f == "stack":
         a = norm_axis(ax, rank + 1)
         return dims[:a] + ["new"] + dims[a:]
-    if f == "take" and c["idx_kind"] == "int":
+    if f == "take" and c["idx_kind"] in ("int", "npint"):
         return [d for i, d in enumerate(dims) if i != norm_axis(ax, rank)]
     return dims
 
 
-STRUCTURAL = {"stack", "concat", "take", "min", "max"}      # never round, whatever the data
-
-
 def is_exact(c, ref):
     """data and operation on which floating point does not round: demand equality, no tolerance"""
-    op, dt = c["op"], c["dtype"]
-    if dt.startswith(("int", "uint", "bool")):
+    op = c["op"]
+    if all(is_intlike(dt) for dt in dtypes_of(c)):
         return op in EXACT_OPS or (op == "pow")
     if op in STRUCTURAL:
         return True
@@ -310,21 +484,32 @@ def tol_of(c, res_dtype):
     return eps, eps * (m + 1) ** 2 * 4
 
 
-def observe(c):
-    """-> ('ok', [(values ndarray, dims|None)...]) | ('err', exc type name)"""
+def unpack(c, r):
+    if c["backend"] == "numpy":
+        return [(np.asarray(r), None)]
+    if c["backend"] == "dataarray":
+        return [(np.asarray(r.values), list(r.dims))]
+    return [(np.asarray(r[v].values), list(r[v].dims)) for v in ("u", "w")]
+
+
+def observe_all(c):
+    """the call, once or (case flag `twice`) twice on the SAME argument objects
+    -> [('ok', [(values ndarray, dims|None)...]) | ('err', exc type name: message), ...]"""
+    obs = []
     with warnings.catch_warnings():
         warnings.simplefilter("ignore")
         with np.errstate(all="ignore"):
             objs = wrap(c, arrays_of(c))
-            try:
-                r = call_impl(c, objs)
-            except Exception as e:
-                return "err", type(e).__name__ + ": " + str(e)[:120]
-    if c["backend"] == "numpy":
-        return "ok", [(np.asarray(r), None)]
-    if c["backend"] == "dataarray":
-        return "ok", [(np.asarray(r.values), list(r.dims))]
-    return "ok", [(np.asarray(r[v].values), list(r[v].dims)) for v in ("u", "w")]
+            for _ in range(2 if c.get("twice") else 1):
+                try:
+                    obs.append(("ok", unpack(c, call_impl(c, objs))))
+                except Exception as e:
+                    obs.append(("err", type(e).__name__ + ": " + str(e)[:120]))
+    return obs
+
+
+def observe(c):
+    return observe_all(c)[0]
 
 
 def reference(c, var=0):
@@ -338,14 +523,35 @@ def reference(c, var=0):
 
 
 def values_agree(c, got, ref):
+    """-> (ok, why, signature suffix)"""
     if got.shape != ref.shape:
-        return False, f"shape {got.shape} != numpy {ref.shape}"
+        return False, f"shape {got.shape} != numpy {ref.shape}", ""
     if is_exact(c, ref):
         ok = np.array_equal(got, ref)
     else:
         rt, at = tol_of(c, ref.dtype)
         ok = np.allclose(got.astype(np.float64), ref.astype(np.float64), rtol=rt, atol=at, equal_nan=True)
-    return ok, "" if ok else f"values {got.tolist()!r} != numpy {ref.tolist()!r}"
+    if not ok:
+        return False, f"values {got.tolist()!r} ({got.dtype}) != numpy {ref.tolist()!r} ({ref.dtype})", ""
+    if got.dtype != ref.dtype and got.dtype not in alt_dtypes(c):
+        return False, f"element type {got.dtype} != numpy {ref.dtype} (values {got.tolist()!r})", ":dtype"
+    return True, "", ""
+
+
+def alt_dtypes(c):
+    """NumPy has two ways to put several arrays on a new leading axis and they do not always agree on the element type:
+    np.stack takes the common type of all of them (np.result_type, independent of the order), np.asarray([a, b, ...])
+    promotes pairwise from the left (int16, uint16, float32 -> float64, but float32 in any other order).  Both are
+    'what NumPy gives' for a multi-argument reduction."""
+    if c["form"] != "multi":
+        return set()
+    try:
+        with warnings.catch_warnings():
+            warnings.simplefilter("ignore")
+            with np.errstate(all="ignore"):
+                return {getattr(np, c["op"])(np.asarray([np.ones((1,), dtype=dt) for dt in dtypes_of(c)]), axis=0).dtype}
+    except Exception:
+        return set()
 
 
 def sig_of(c):
@@ -353,33 +559,45 @@ def sig_of(c):
 
 
 def oracle_values(c, res):
-    """property, first sentence, on the implementation.  Returns the observation."""
-    kind, out = observe(c)
-    res.evaluations += 1
+    """property, first sentence, on the implementation.  Returns the observation (of the first call)."""
+    allobs = observe_all(c)
+    kind, out = allobs[0]
+    res.evaluations += len(allobs)
     rk, ref0 = reference(c)
     if c.get("malformed"):
         return kind, out          # the property does not speak about ill-formed calls; correspondence only
     if rk == "err":
         res.count("oracle:numpy-itself-raises(skipped)")
         return None, None
-    if kind == "err":
-        res.fail(sig_of(c) + ":raises", f"{describe(c)} raised {out} where numpy returns a value", c)
-        return kind, out
-    for v, (got, dims) in enumerate(out):
-        rk, ref = reference(c, v)
-        ok, why = values_agree(c, got, ref)
-        if ok and dims is not None and dims != expected_dims(c):
-            ok, why = False, f"dims {dims} != expected {expected_dims(c)}"
-        if not ok:
-            res.fail(sig_of(c), f"{describe(c)}: {why}", c)
+    for n, (kind_n, out_n) in enumerate(allobs):
+        again = "" if n == 0 else "second call on the same argument objects: "
+        if kind_n == "err":
+            if c.get("broadcast") and c["form"] == "stack" and n == 0:
+                res.count("oracle:broadcast-stack-refused(np.stack refuses it too, skipped)")
+                return None, None
+            res.fail(sig_of(c) + ":raises", f"{again}{describe(c)} raised {out_n} where numpy returns a value", c)
+            return kind, out
+        bad = False
+        for v, (got, dims) in enumerate(out_n):
+            rk, ref = reference(c, v)
+            ok, why, suffix = values_agree(c, got, ref)
+            if ok and dims is not None and dims != expected_dims(c):
+                ok, why = False, f"dims {dims} != expected {expected_dims(c)}"
+            if not ok:
+                res.fail(sig_of(c) + suffix, f"{again}{describe(c)}: {why}", c)
+                bad = True
+                break
+        if bad:
             break
     res.count("compare:" + ("exact" if is_exact(c, ref0) else "tolerance"))
     return kind, out
 
 
 def describe(c):
-    extra = {k: c[k] for k in ("axis", "idx", "second") if k in c and c[k] is not None}
-    return f"backends.{c['op']} [{c['backend']}, {c['form']}, {c['dtype']}, shapes {c['shapes']}, {extra}]"
+    extra = {k: c[k] for k in ("axis", "idx", "second", "alias", "layouts") if k in c and c[k] is not None}
+    dts = dtypes_of(c)
+    dt = dts[0] if len(set(dts)) == 1 else "types " + ",".join(dts)
+    return f"backends.{c['op']} [{c['backend']}, {c['form']}, {dt}, shapes {c['shapes']}, {extra}]"
 
 
 # ----------------------------------------------------------------------------- Coq literals
@@ -419,7 +637,7 @@ def ccall(c, var=0):
         return f"CConcat {clist(ts)} {cz(ax)}"
     if f == "take":
         idx = c["idx"]
-        i = f"(inl {cz(idx)})" if c["idx_kind"] == "int" else "(inr [" + ";".join(str(int(x)) for x in idx) + "]%Z)"
+        i = f"(inl {cz(idx)})" if c["idx_kind"] in ("int", "npint") else "(inr [" + ";".join(str(int(x)) for x in idx) + "]%Z)"
         return f"CTake {ts[0]} {i} {cz(ax)}"
     return f"CBin {cstr(BINARY[op])} {ts[0]} {ts[1]}"
 
@@ -433,19 +651,82 @@ def cobs(kind, got):
     return f"OVal {clistnat(got.shape)} [" + ";".join(f"({f.numerator},{f.denominator})" for f in flat) + "]%Z"
 
 
+def conversion_exact(c):
+    """converting every argument to NumPy's common element type changes no value (64-bit integers -> float64 may)"""
+    dts = dtypes_of(c)
+    if len(set(dts)) == 1:
+        return True
+    D = common_np_dtype(c)
+    for var in ((0, 1) if c["backend"] == "dataset" else (0,)):
+        for a in arrays_of(c, var):
+            if a.dtype != D and a.size:
+                with np.errstate(all="ignore"):
+                    b = a.astype(D)
+                if any(frac(x) != frac(y) for x, y in zip(a.reshape(-1).tolist(), b.reshape(-1).tolist())):
+                    return False
+    return True
+
+
 def in_model(c, kind, out):
-    """the model's value domain: no bool/unsigned arithmetic, finite results, integral exponents"""
-    if c["dtype"] in EXTRA_DTYPES:
+    """the model's domain: the modelled element types; arithmetic only where nothing wraps or rounds away (small values
+    of the signed and floating types), finite results, integral exponents; no broadcasting"""
+    dts = dtypes_of(c)
+    if any(dt not in COQ_DTYPE for dt in dts) or c.get("broadcast"):
+        return False
+    moving = c["op"] in STRUCTURAL
+    if not moving and any(dt in EXTRA_DTYPES for dt in dts):
+        return False
+    if not conversion_exact(c):
         return False
     if kind == "ok":
         for got, _ in out:
-            if got.dtype.kind not in "iuf" or not np.all(np.isfinite(got.astype(np.float64))):
+            if got.dtype.kind not in ("iufb" if moving else "iuf") or not np.all(np.isfinite(got.astype(np.float64))):
                 return False
     if c["op"] == "pow" and any(not float(x).is_integer() for x in c["datas"][1]):
         return False
     if c["op"] in ("mean", "std", "var") and math.prod(c["shapes"][0]) == 0:
         return False
     return True
+
+
+def asarray_rule(c):
+    """ArrayAPIBackend puts the arguments of a multi-argument reduction on a new axis with xp.asarray([a, b, ...]), whose
+    element type is found pairwise from the left (Backends/Dtype.v promote_seq), not np.result_type (promote_list)"""
+    return c["backend"] == "numpy" and c["form"] == "multi"
+
+
+def cseq(c):
+    return "true" if asarray_rule(c) else "false"
+
+
+def common_np_dtype(c):
+    dts = [np.dtype(d) for d in dtypes_of(c)]
+    if asarray_rule(c):
+        D = dts[0]
+        for d in dts[1:]:
+            D = np.promote_types(D, d)
+        return D
+    return np.result_type(*dts)
+
+
+def typed_case(c):
+    """a Python scalar operand has no element type (NumPy's weak-scalar rules are not modelled)"""
+    return not (c["form"] == "bin" and c.get("second") == "scalar")
+
+
+def ccall_shape(c):
+    """the call without its data: enough for the element type of the result"""
+    f, op = c["form"], c["op"]
+    t0 = "(ti []%nat [0]%Z)"
+    if f in ("multi", "single"):
+        return f"CReduce {cstr(op)} [] None"
+    if f == "stack":
+        return "CStack [] 0%Z"
+    if f == "concat":
+        return "CConcat [] 0%Z"
+    if f == "take":
+        return f"CTake {t0} (inl 0%Z) 0%Z"
+    return f"CBin {cstr(BINARY[op])} {t0} {t0}"
 
 
 def cterm(c, kind, got, var=0):
@@ -457,7 +738,11 @@ def cterm(c, kind, got, var=0):
     else:
         rt = at = 0.0
     frt, fat = Fraction(rt), Fraction(at)
-    return f"({ccall(c, var)}, {cobs(kind, got)}, ({frt.numerator},{frt.denominator})%Z, ({fat.numerator},{fat.denominator})%Z)"
+    # element types: of every argument, and of the observed result; a Python scalar operand has none (untyped case)
+    typed = typed_case(c)
+    ds = "[" + "; ".join(COQ_DTYPE[dt] for dt in dtypes_of(c)) + "]" if typed else "(@nil dtype)"
+    od = f"(Some {COQ_DTYPE[str(got.dtype)]})" if typed and kind == "ok" and str(got.dtype) in COQ_DTYPE else "(@None dtype)"
+    return f"(({ccall(c, var)}, {cobs(kind, got)}, ({frt.numerator},{frt.denominator})%Z, ({fat.numerator},{fat.denominator})%Z), ({ds}, {od}, {cseq(c)}))"
 
 
 # ----------------------------------------------------------------------------- batch law on the implementation
@@ -502,9 +787,23 @@ def gen_batch_case(rng, name):
         s = gen_shape(rng)
         c["shapes"], c["axis"] = [s] * k, None
     style = rng.choice(["int", "int", "real"])
-    c["style"] = style
-    c["datas"] = [gen_data(rng, math.prod(s), dtype, "prod" if name == "prod" else name, style) for s in c["shapes"]]
+    # element types: one for all, or per argument; values: small, or -- where the batched and the unbatched evaluation
+    # compute in the same type whatever the grouping -- from the whole range of each type
+    dts = [dtype] * k
+    r = rng.random()
+    if r < 0.25:
+        dts = [rng.choice(INTS) for _ in range(k)]
+        style = "wide" if name in ("min", "max", "concat") or all(d in ("int8", "int16") for d in dts) or rng.random() < 0.5 else "int"
+    elif r < 0.5:
+        pool = ALL_DTYPES if name in ("min", "max", "concat") else INTS + ["uint8", "uint16", "float32", "float64"]
+        dts = [rng.choice(pool) for _ in range(k)]
+        if name in ("min", "max", "concat") and rng.random() < 0.6:
+            style = "wide"
+    c["dtypes"], c["dtype"], c["style"] = dts, dts[0], style
+    c["datas"] = [gen_data(rng, math.prod(s), dt, "prod" if name == "prod" else name, style) for s, dt in zip(c["shapes"], dts)]
     c["partition"] = gen_partition(rng, k, ordered=(name in ("concat", "stack")))
+    if rng.random() < 0.25:
+        c["layouts"] = [rng.choice(LAYOUTS) for _ in range(k)]
     return c
 
 
@@ -526,7 +825,7 @@ def plain(c, r):
     if c["backend"] == "numpy":
         return [np.asarray(r)]
     if c["backend"] == "dataarray":
-        return [np.asarray(r.transpose(*sorted(r.dims)).values)] if False else [np.asarray(r.values)]
+        return [np.asarray(r.values)]
     return [np.asarray(r[v].values) for v in ("u", "w")]
 
 
@@ -548,13 +847,15 @@ def oracle_batch(c, res):
             except Exception as e:
                 res.fail(f"batch-law:{c['op']}", f"{describe(c)} partition {c['partition']}: batched evaluation raised {type(e).__name__}: {str(e)[:100]}", c)
                 return
-    exact = c["dtype"].startswith("int") or c["style"] == "int"
+    dts = dtypes_of(c)
+    exact = all(is_intlike(dt) for dt in dts) or c["style"] in ("int", "wide")
+    rt = 1e-5 if any(dt in ("float32", "float16") for dt in dts) else 1e-9
     for g, w in zip(got, whole):
         if exact and c["op"] in EXACT_OPS:
             ok = g.shape == w.shape and np.array_equal(g, w)
         else:
             m = max([abs(float(x)) for d in c["datas"] for x in d] + [1.0])
-            ok = g.shape == w.shape and np.allclose(g.astype(float), w.astype(float), rtol=1e-9, atol=1e-9 * (m + 1) ** 2)
+            ok = g.shape == w.shape and np.allclose(g.astype(float), w.astype(float), rtol=rt, atol=rt * (m + 1) ** 2)
         if not ok:
             res.fail(f"batch-law:{c['op']}", f"{describe(c)} partition {c['partition']}: batched {g.tolist()!r} != unbatched {w.tolist()!r}", c)
             return
@@ -580,49 +881,75 @@ def translator_markers(ctx=None):
 
 # ----------------------------------------------------------------------------- driver
 def key_of(c):
-    return (c["backend"], c["op"], c["form"], tuple(map(tuple, c["shapes"])), str(c.get("axis")), str(c.get("idx")), c["dtype"], str(c.get("partition")))
+    return (c["backend"], c["op"], c["form"], tuple(map(tuple, c["shapes"])), str(c.get("axis")), str(c.get("idx")), tuple(dtypes_of(c)), str(c.get("partition")))
 
 
 def nontrivial(c):
     return len(c["shapes"][0]) >= 1 and math.prod(c["shapes"][0]) >= 2
 
 
-def run_cases(ctx, res, cases, tag):
-    terms, metas = [], []
+def run_cases(ctx, res, cases, acc):
+    """oracle on every case; the cases inside the model's domain are queued (acc) for the evaluation in Coq"""
     for c in cases:
         kind, out = oracle_values(c, res)
         res.count(f"{c['backend']}:{c['form']}:{c['op']}" + (":malformed" if c.get("malformed") else ""))
+        dts = dtypes_of(c)
+        if len(dts) >= 2:
+            res.count("element types:" + ("equal" if len(set(dts)) == 1 else "mixed, first is the common type" if str(np.result_type(*dts)) == dts[0] else "mixed, first is narrower than the common type"))
+        if c.get("style") == "wide":
+            res.count("values:whole range of the type")
+        for flag in ("broadcast", "alias", "twice", "layouts"):
+            if c.get(flag):
+                res.count("held:" + flag)
         if nontrivial(c):
             res.nontrivial_keys.add(key_of(c))
         if kind is None:
             continue
         if not in_model(c, kind, out if kind == "ok" else []):
             res.count("correspondence:outside-model-domain(oracle only)")
+            # the element type of the result is predicted by the model even where the values are not (wrap-around, rounding, broadcasting)
+            if kind == "ok" and typed_case(c) and all(dt in COQ_DTYPE for dt in dts) and str(out[0][0].dtype) in COQ_DTYPE:
+                acc["dterms"].append(f"({ccall_shape(c)}, [{'; '.join(COQ_DTYPE[dt] for dt in dts)}], {COQ_DTYPE[str(out[0][0].dtype)]}, {cseq(c)})")
+                acc["dmetas"].append(c)
+                res.count("correspondence:element type of the result only")
             continue
         if kind == "err":
-            terms.append(cterm(c, "err", out))
-            metas.append(c)
+            acc["terms"].append(cterm(c, "err", out))
+            acc["metas"].append(c)
         else:
             for v, (got, _) in enumerate(out):
-                terms.append(cterm(c, "ok", got, v))
-                metas.append(c)
+                acc["terms"].append(cterm(c, "ok", got, v))
+                acc["metas"].append(c)
         if len(res.samples) < 4 and nontrivial(c) and c["form"] in ("multi", "concat", "take"):
             res.samples.append({"case": {k: c[k] for k in c if k != "datas"}, "observed": out if kind == "err" else out[0][0].tolist()})
-    if not terms:
-        return
-    rs, logs = coq_results("C15", HEADER, terms, "check_case", shard=250, tag=tag)
-    res.corr_checked += len(rs)
-    for r, c in zip(rs, metas):
-        if r is not True:
-            res.disagree(f"Coq model (Backends/Ops.v apply) disagrees with backends.{c['op']} on {describe(c)}"
-                         + ("" if r is False else " (cases file did not compile: " + (logs[0][-300:] if logs else "") + ")"), c)
-            break
+
+
+def check_in_coq(res, acc):
+    """the queued cases, evaluated by the model inside Coq (two checkers, side by side)"""
+    from concurrent.futures import ThreadPoolExecutor
+    jobs = []
+    if acc["terms"]:
+        jobs.append(("check_case_d", acc["terms"], acc["metas"], 400, "val",
+                     "Coq model (Backends/Ops.v apply, Backends/Dtype.v element types) disagrees with backends.{op} on {d}"))
+    if acc["dterms"]:
+        jobs.append(("check_dtype_only", acc["dterms"], acc["dmetas"], 2000, "dt",
+                     "Coq model (Backends/Dtype.v result_dtype) disagrees with backends.{op} on the element type of the result of {d}"))
+    with ThreadPoolExecutor(max_workers=2) as ex:
+        outs = list(ex.map(lambda j: coq_results("C15", HEADER, j[1], j[0], shard=j[3], tag=j[4]), jobs))
+    for (checker, terms, metas, _, _, msg), (rs, logs) in zip(jobs, outs):
+        res.corr_checked += len(rs)
+        for r, c in zip(rs, metas):
+            if r is not True:
+                res.disagree(msg.format(op=c["op"], d=describe(c))
+                             + ("" if r is False else " (cases file did not compile: " + (logs[0][-300:] if logs else "") + ")"), c)
+                break
 
 
 def run(ctx, res):
     res.rule = ("a case = one call of one back-end (numpy | xr.DataArray | xr.Dataset) of one operation in one form (multi-argument, single-argument with/without axis, "
-                "stack, concat, take int/list/ndarray, binary with array/0-d/scalar) with dtype, shapes, axis, indices, or one batched evaluation with a partition; "
-                "non-trivial = rank >= 1 and >= 2 elements; distinct = distinct (backend, op, form, shapes, axis, indices, dtype, partition)")
+                "stack, concat, take int/list/ndarray, binary with array/0-d/scalar/broadcast operand) with the element type of every argument, shapes, axis, indices, "
+                "or one batched evaluation with a partition; "
+                "non-trivial = rank >= 1 and >= 2 elements; distinct = distinct (backend, op, form, shapes, axis, indices, element types, partition)")
     # (T) translator table == run-time markers
     try:
         tm, rm = translator_markers(ctx), runtime_marked()
@@ -655,8 +982,12 @@ def run(ctx, res):
     rng2 = ctx.sub_rng("malformed")
     bad = [gen_case(rng2, malformed=True) for _ in range(ctx.n(150, 3000))]
     bad = [c for c in bad if c.get("malformed")]
-    run_cases(ctx, res, cases, "val")
-    run_cases(ctx, res, bad, "bad")
+    sweep = gen_sweep(ctx.sub_rng("sweep"), ctx.n(1, 8))
+    acc = {"terms": [], "metas": [], "dterms": [], "dmetas": []}
+    run_cases(ctx, res, cases, acc)
+    run_cases(ctx, res, sweep, acc)
+    run_cases(ctx, res, bad, acc)
+    check_in_coq(res, acc)
     # (O2) batch law for every function marked at run time
     rng3 = ctx.sub_rng("batch")
     for name in runtime_marked():
@@ -677,6 +1008,10 @@ def search(ctx, res):
                 oracle_batch(gen_batch_case(rng, name), r2)
                 if r2.failures:
                     return r2.failures[0]
+        for c in gen_sweep(rng, 1):
+            oracle_values(c, r2)
+            if r2.failures:
+                return r2.failures[0]
         for _ in range(6000):
             oracle_values(gen_case(rng), r2)
             if r2.failures:
